@@ -69,6 +69,26 @@ def gen_cases(rng, tier):
         cases.append({"kind": "reth", "n": n, "npol": 1, "sps": g.get("sps"), "R": g.get("R"), "gv": g,
                       "D": rng.uniform(-1, 1) * 2.0 / (np.pi * _fs_of(g) * 1e-12) ** 2,
                       "noise": False, "seed": rng.getrandbits(32)})
+    # strong dispersion: tens to hundreds of radians accumulated at the band edge, several radians PER KM, fractional lengths
+    # (a per-km operator raised to the length, exp(D_op)**L, wraps its phase to (-pi, pi] and only shows there)
+    for n, npol, L in [(64, 1, 12.5), (33, 2, 0.5), (128, 1, 80.25), (17, 2, 37.3)]:
+        g = rng.choice(gvs)
+        fs = _fs_of(g)
+        per_km = rng.choice([-1, 1]) * rng.uniform(4.0, 12.0)                 # radians per km at w_max
+        b2 = per_km * 2.0 / (np.pi * fs * 1e-12) ** 2
+        cases.append({"kind": "fiber", "n": n, "npol": npol, "sps": g.get("sps"), "R": g.get("R"), "gv": g, "dark": None, "alpha": rng.choice([0.0, 0.2]),
+                      "b2": b2, "b3": 0.0, "L": L, "L2": rng.choice([0.75, 3.3]), "noise": False, "seed": rng.getrandbits(32), "dtype": "complex"})
+        cases.append({"kind": "dm", "n": n, "npol": npol, "sps": g.get("sps"), "R": g.get("R"), "gv": g, "dark": None, "D": b2 * L, "D2": -b2 * L / 3,
+                      "noise": False, "seed": rng.getrandbits(32), "dtype": "complex"})
+    # amplitude regimes (the filter is linear: tiny and huge fields alike) and two polarisations that differ only slightly
+    for n, amp_, twin in [(32, 1e-9, None), (33, 1e-13, None), (16, 1e7, None), (64, 1.0, 1e-7), (17, 1e-9, 1e-3)]:
+        g = rng.choice(gvs)
+        fs = _fs_of(g)
+        Dscale = 2.0 / (np.pi * fs * 1e-12) ** 2
+        cases.append({"kind": "dm", "n": n, "npol": 2, "sps": g.get("sps"), "R": g.get("R"), "gv": g, "dark": None, "D": 2.0 * Dscale, "D2": -0.7 * Dscale,
+                      "noise": False, "seed": rng.getrandbits(32), "dtype": "complex", "amp": amp_, "twin": twin})
+        cases.append({"kind": "fiber", "n": n, "npol": 2, "sps": g.get("sps"), "R": g.get("R"), "gv": g, "dark": None, "alpha": 0.1, "b2": 1.5 * Dscale / 20.0,
+                      "b3": 0.0, "L": 20.0, "L2": 5.0, "noise": False, "seed": rng.getrandbits(32), "dtype": "complex", "amp": amp_, "twin": twin})
     # a transparent medium: D = 0 and D = -0.0 (an exactly compensated link) with retH — still a (signal, H) pair, H = 1
     for n, npol, D in [(8, 1, 0.0), (9, 2, -0.0), (16, 2, 0.0)]:
         g = rng.choice(gvs)
@@ -112,6 +132,11 @@ def _field(case):
         s = np.round(s.real * 20).astype(np.int64)
     elif dt == "complex64":
         s = s.astype(np.complex64)
+    if case.get("twin") and case["npol"] == 2:          # y = x up to a small relative perturbation
+        s[1] = s[0] * (1.0 + case["twin"] * (r.normal(size=case["n"]) + 1j * r.normal(size=case["n"])))
+    if case.get("amp"):
+        s = s * case["amp"]
+        nz = None if nz is None else nz * case["amp"]
     d = case.get("dark")
     if d == "all":
         s = s * 0
@@ -229,7 +254,7 @@ def _cmp_rows(name, reply, rows, n, rel=1e-9):
         iv = [complex(a, b) for a, b in ir]
         if len(mr) != len(iv):
             return [f"{name} row {r}: length {len(mr)} vs {len(iv)}"]
-        scale = max(1.0, max(abs(z) for z in iv))
+        scale = max(abs(z) for z in iv) or 1.0
         for k, (a, b) in enumerate(zip(mr, iv)):
             if not (abs(a - b) <= rel * scale * max(1, n)):
                 return [f"{name} row {r} sample {k}: model {a!r} impl {b!r}"]
@@ -274,7 +299,7 @@ def oracle(case, res):
     r12 = 3e-6 if _single(case) else 1e-12
     a = np.array([[complex(p, q) for p, q in row] for row in res["inp"]])
     o = np.array([[complex(p, q) for p, q in row] for row in res["out"]])
-    scale = max(1.0, float(np.max(np.abs(a))))
+    scale = float(np.max(np.abs(a))) if np.max(np.abs(a)) > 0 else 1.0          # purely relative to the field
     w = 2 * np.pi * np.fft.fftfreq(n) * fs
     if res.get("positional_same") is False:
         v.append(("C07:positional", f"{case['kind']}: the call with the documented positional argument order differs from the keyword call (n={n})"))
@@ -307,7 +332,7 @@ def oracle(case, res):
         v.append(("C07:input-modified", "the input object was modified"))
     e_in, e_out = np.array(res["e_in"]), np.array(res["e_out"])
     if case["kind"] == "dm":
-        if not np.all(np.abs(e_out - e_in) <= r12 * n * np.maximum(1.0, e_in)):
+        if not np.all(np.abs(e_out - e_in) <= r12 * n * e_in):
             v.append(("C07:dm-energy", f"DM changed the energy: {e_in} -> {e_out}"))
         if not (res["inv_err"] <= eps * scale * 4):
             v.append(("C07:dm-inverse", f"DM(-D)(DM(D)x) differs from x by {res['inv_err']:.3e}"))
